@@ -24,7 +24,9 @@ use crate::runtime::{
 };
 
 pub const EXEC_LAMPORTS: u64 = 300_000;
-pub const EXEC_FEE: u64 = 250_000;
+/// the fee a keeper claims per execution: less than half of the unused part of EXEC_LAMPORTS, so that a (wrongly
+/// accepted) second execution of the same action could be paid as well
+pub const EXEC_FEE: u64 = 100_000;
 
 #[derive(Clone, Debug)]
 pub struct Tok {
@@ -305,12 +307,34 @@ impl R2 {
         w.set_account(tok.feed, acc);
     }
 
-    /// All feeds publish their token's nominal price "now".
+    /// the USD price currently stored in the token's feed account (the nominal price before the first publication)
+    pub fn current_price(&self, w: &World, tok: &Tok) -> u64 {
+        let n = std::mem::size_of::<PriceFeed>();
+        let stored = w
+            .account(&tok.feed)
+            .map(|acc| bytemuck::pod_read_unaligned::<PriceFeed>(&acc.data[8..8 + n]))
+            .map(|pf| (*pf.price().price() / 100_000_000) as u64)
+            .unwrap_or(0);
+        if stored == 0 {
+            tok.price
+        } else {
+            stored
+        }
+    }
+
+    /// All feeds publish "now"; every token keeps the price it last published (initially the nominal one).
     pub fn refresh_prices(&self, w: &mut World) {
         let (ts, slot) = w.clock();
         for t in &self.toks {
-            self.set_price(w, t, t.price, 0, ts, slot);
+            let p = self.current_price(w, t);
+            self.set_price(w, t, p, 0, ts, slot);
         }
+    }
+
+    /// the feed of token `ti` publishes a new price "now" (later `refresh_prices` keep it)
+    pub fn set_token_price(&self, w: &mut World, ti: usize, usd: u64) {
+        let (ts, slot) = w.clock();
+        self.set_price(w, &self.toks[ti], usd, 0, ts, slot);
     }
 
     /// feed accounts for the (sorted) token list of a swap-params block, then the swap markets
@@ -1680,6 +1704,29 @@ impl R2 {
                 }
                 self.flow_position(w, rec, &pos_user, o.m, &nonce, inc, is_long, col_long, col, size);
             }
+            "price" => {
+                // the price of token `tok` moves by (a - 3) * 5 %, kept within [60 %, 150 %] of nominal
+                let t = &self.toks[o.tok];
+                let p = self.current_price(w, t);
+                let q = (p as i64 + p as i64 * (o.a as i64 - 3) * 5 / 100).clamp(t.price as i64 * 6 / 10, t.price as i64 * 15 / 10).max(1) as u64;
+                self.set_token_price(w, o.tok, q);
+            }
+            "liquidate" | "adl" => {
+                // attempt to cut some open position in market m (most attempts are rejected: not liquidatable / ADL not enabled)
+                for (u, l, c) in self.users.iter().flat_map(|u| [(true, true), (true, false), (false, true), (false, false)].map(|(l, c)| (*u, l, c))) {
+                    if let Some((_, size)) = self.open_position(w, &u, o.m, l, c) {
+                        if o.op == "adl" {
+                            self.flow_update_adl(w, rec, o.m, l);
+                        }
+                        self.flow_cut(w, rec, &u, o.m, l, c, &nonce, if o.op == "adl" { Some(size) } else { None });
+                        break;
+                    }
+                }
+            }
+            "cut_scenario" => {
+                // a: bit 0 = adl, bit 1 = the PnL -> collateral swap fails; position side / collateral side from the op
+                self.cut_scenario(w, rec, &user, o.m, o.side_long, o.tok_out.is_some(), o.a & 1 == 1, o.a & 2 == 2, ctr);
+            }
             "swap_path" => {
                 let out = o.tok_out.or_else(|| self.walk(o.tok, &o.path)).unwrap_or(o.tok);
                 let om = o.path.last().copied().unwrap_or(o.m);
@@ -1699,7 +1746,22 @@ pub fn random_op(r2: &R2, rng: &mut crate::util::Rng) -> AbsOp {
     let mut o = AbsOp { m, m2: usize::MAX, side_long: rng.chance(1, 2), a: 1 + rng.below(4), user: rng.below(2) as usize, ..Default::default() };
     let (m1, m2, m3) = (mi(r2, "M1"), mi(r2, "M2"), mi(r2, "M3"));
     let (ta, tb, tc) = (0usize, 1usize, 2usize);
-    match rng.below(18) {
+    match rng.below(23) {
+        18 => {
+            o.op = "price".into();
+            o.tok = [0usize, 2, 3][rng.below(3) as usize];
+            o.a = 1 + rng.below(5);
+        }
+        19 => {
+            o.op = if rng.chance(1, 2) { "liquidate" } else { "adl" }.into();
+            o.m = *rng.pick(&two);
+        }
+        20 | 21 | 22 => {
+            o.op = "cut_scenario".into();
+            o.m = *rng.pick(&two);
+            o.a = rng.below(4);
+            o.tok_out = if rng.chance(1, 2) { Some(0) } else { None };
+        }
         14 | 15 => {
             o.op = "increase".into();
             o.m = *rng.pick(&two);
@@ -2162,5 +2224,216 @@ impl R2 {
         info.op = if increase { "close_increase" } else { "close_decrease" }.into();
         rec.exec(w, &info, &mut |w: &mut World| self.close_position_order(w, user, user, &o, &m, increase, c));
         state
+    }
+}
+
+// =====================================================================================================
+// Position cuts: liquidate / update_adl_state / auto_deleverage, and recorded config / price changes.
+impl R2 {
+    /// keeper preparation for a position cut (not recorded): trade event buffer, the three claimable
+    /// accounts of the current time window, the escrow accounts of the order the cut will create
+    pub fn prepare_cut_accounts(&self, w: &mut World, owner: &Pubkey, m: &Mkt, nonce: &[u8; 32], pnl_long: bool) {
+        self.prepare_keeper_accounts(w, owner, m, true, pnl_long);
+        let keeper = self.keeper;
+        let order = self.order_pda(&keeper, nonce);
+        for t in [m.long, m.short] {
+            must("cut escrow", w.execute(&ata_ix(&keeper, &order, &self.toks[t].mint), &[keeper]));
+        }
+    }
+
+    /// `liquidate` (adl_size = None) or `auto_deleverage` of `position` by the keeper
+    pub fn cut_ix(&self, w: &World, owner: &Pubkey, m: &Mkt, position: &Pubkey, pnl_long: bool, nonce: &[u8; 32], adl_size: Option<u128>) -> Instruction {
+        let keeper = self.keeper;
+        let (lt, stk) = (self.toks[m.long].mint, self.toks[m.short].mint);
+        let order = self.order_pda(&keeper, nonce);
+        let ts = w.clock().0;
+        let store: Store = w.account_data(&self.store).expect("store");
+        let holding = *store.holding();
+        let pnl = if pnl_long { lt } else { stk };
+        let accounts = gmsol_store::accounts::PositionCut {
+            authority: keeper,
+            owner: *owner,
+            user: st::user_pda(&self.store, owner),
+            store: self.store,
+            token_map: self.token_map,
+            oracle: self.oracle,
+            market: m.market,
+            order,
+            position: *position,
+            event: self.trade_buffer(&keeper, 0),
+            long_token: lt,
+            short_token: stk,
+            long_token_escrow: spl::ata(&order, &lt),
+            short_token_escrow: spl::ata(&order, &stk),
+            long_token_vault: market_vault_pda(&self.store, &lt),
+            short_token_vault: market_vault_pda(&self.store, &stk),
+            claimable_long_token_account_for_user: self.claimable_pda(w, &lt, owner, ts),
+            claimable_short_token_account_for_user: self.claimable_pda(w, &stk, owner, ts),
+            claimable_pnl_token_account_for_holding: self.claimable_pda(w, &pnl, &holding, ts),
+            system_program: system_program::ID,
+            token_program: spl_token::ID,
+            associated_token_program: spl_associated_token_account::ID,
+            chainlink_program: None,
+            event_authority: st::event_authority(&gmsol_store::ID),
+            program: gmsol_store::ID,
+        };
+        let mut ix = match adl_size {
+            None => st::ix(accounts, gmsol_store::instruction::Liquidate { nonce: *nonce, recent_timestamp: ts, execution_fee: EXEC_FEE }),
+            Some(size) => st::ix(
+                accounts,
+                gmsol_store::instruction::AutoDeleverage { nonce: *nonce, recent_timestamp: ts, size_delta_in_usd: size, execution_fee: EXEC_FEE },
+            ),
+        };
+        let mut tokens = vec![self.toks[m.index].mint, lt, stk];
+        tokens.sort();
+        tokens.dedup();
+        ix.accounts.extend(self.exec_remaining(&tokens, &[], &m.market_token));
+        ix
+    }
+
+    /// the position of `owner` in market `mi` (side, collateral side): (address, size in usd) if it is open
+    pub fn open_position(&self, w: &World, owner: &Pubkey, mi: usize, is_long: bool, col_long: bool) -> Option<(Pubkey, u128)> {
+        let m = &self.mkts[mi];
+        let ct = self.toks[if col_long { m.long } else { m.short }].mint;
+        let pda = self.position_pda(owner, m, &ct, is_long);
+        let pos: Option<gmsol_store::states::Position> = match w.account(&pda) {
+            Some(a) if a.owner == gmsol_store::ID => w.account_data(&pda),
+            _ => None,
+        };
+        pos.filter(|p| p.state.size_in_usd > 0).map(|p| (pda, p.state.size_in_usd))
+    }
+
+    /// liquidate / auto_deleverage + close of the order the cut created (by the keeper)
+    #[allow(clippy::too_many_arguments)]
+    pub fn flow_cut(&self, w: &mut World, rec: &mut dyn Recorder, owner: &Pubkey, mi: usize, is_long: bool, col_long: bool, nonce: &[u8; 32], adl_size: Option<u128>) -> ExecResult {
+        let m = self.mkts[mi].clone();
+        let ct = self.toks[if col_long { m.long } else { m.short }].mint;
+        let position = self.position_pda(owner, &m, &ct, is_long);
+        self.tick(w);
+        self.prepare_cut_accounts(w, owner, &m, nonce, is_long);
+        let keeper = self.keeper;
+        let order = self.order_pda(&keeper, nonce);
+        let mut info = Info {
+            op: if adl_size.is_some() { "auto_deleverage" } else { "liquidate" }.into(),
+            touched: vec![mi],
+            side: if col_long { "long" } else { "short" }.into(),
+            direction: "cut".into(),
+            current: Some(mi),
+            action: Some(order),
+            ..Default::default()
+        };
+        let r = rec.exec(w, &info, &mut |w: &mut World| {
+            let ix = self.cut_ix(w, owner, &m, &position, is_long, nonce, adl_size);
+            w.execute(&ix, &[keeper])
+        });
+        if r.ok {
+            // the order exists now (completed): the keeper closes it, the outputs go to the owner
+            let rent_receiver = self.order(w, &order).map(|o| *o.header().rent_receiver()).unwrap_or(*owner);
+            let (lt, stk) = (self.toks[m.long].mint, self.toks[m.short].mint);
+            info.op = "close_cut_order".into();
+            rec.exec(w, &info, &mut |w: &mut World| {
+                let mut ix = st::ix(
+                    gmsol_store::accounts::CloseOrderV2 {
+                        executor: keeper,
+                        store: self.store,
+                        store_wallet: self.store_wallet,
+                        owner: *owner,
+                        receiver: *owner,
+                        rent_receiver,
+                        user: st::user_pda(&self.store, owner),
+                        referrer_user: None,
+                        order,
+                        initial_collateral_token: None,
+                        final_output_token: Some(ct),
+                        long_token: Some(lt),
+                        short_token: Some(stk),
+                        initial_collateral_token_escrow: None,
+                        final_output_token_escrow: Some(spl::ata(&order, &ct)),
+                        long_token_escrow: Some(spl::ata(&order, &lt)),
+                        short_token_escrow: Some(spl::ata(&order, &stk)),
+                        initial_collateral_token_ata: None,
+                        final_output_token_ata: Some(spl::ata(owner, &ct)),
+                        long_token_ata: Some(spl::ata(owner, &lt)),
+                        short_token_ata: Some(spl::ata(owner, &stk)),
+                        system_program: system_program::ID,
+                        token_program: spl_token::ID,
+                        associated_token_program: spl_associated_token_account::ID,
+                        callback_authority: None,
+                        callback_program: None,
+                        callback_shared_data_account: None,
+                        callback_partitioned_data_account: None,
+                        event_authority: st::event_authority(&gmsol_store::ID),
+                        program: gmsol_store::ID,
+                    },
+                    gmsol_store::instruction::CloseOrderV2 { reason: "verif".into() },
+                );
+                payer_writable(&mut ix, &keeper);
+                w.execute(&ix, &[keeper])
+            });
+        }
+        r
+    }
+
+    pub fn flow_update_adl(&self, w: &mut World, rec: &mut dyn Recorder, mi: usize, is_long: bool) -> ExecResult {
+        let m = self.mkts[mi].clone();
+        self.tick(w);
+        let keeper = self.keeper;
+        let info = Info { op: "update_adl_state".into(), touched: vec![mi], side: "none".into(), direction: "cut".into(), current: Some(mi), ..Default::default() };
+        rec.exec(w, &info, &mut |w: &mut World| {
+            let mut ix = st::ix(
+                gmsol_store::accounts::UpdateAdlState { authority: keeper, store: self.store, token_map: self.token_map, oracle: self.oracle, market: m.market, chainlink_program: None },
+                gmsol_store::instruction::UpdateAdlState { is_long },
+            );
+            let mut tokens = vec![self.toks[m.index].mint, self.toks[m.long].mint, self.toks[m.short].mint];
+            tokens.sort();
+            tokens.dedup();
+            ix.accounts.extend(self.exec_remaining(&tokens, &[], &m.market_token));
+            w.execute(&ix, &[keeper])
+        })
+    }
+
+    /// recorded `update_market_config`
+    pub fn flow_config(&self, w: &mut World, rec: &mut dyn Recorder, mi: usize, key: &str, value: u128) -> ExecResult {
+        let m = self.mkts[mi].clone();
+        let info = Info { op: "update_market_config".into(), touched: vec![mi], side: "none".into(), direction: "config".into(), current: Some(mi), ..Default::default() };
+        rec.exec(w, &info, &mut |w: &mut World| self.update_market_config(w, &m, key, value))
+    }
+
+    /// A position is opened, the index price moves in its favour, the market is configured so that the
+    /// position can be cut, and it is liquidated (`adl` = false) or auto-deleveraged.  `swap_fails`: the
+    /// pool of the PnL token is capped so that the cut's PnL -> collateral swap fails and the profit is
+    /// paid out as secondary output in the PnL token.
+    #[allow(clippy::too_many_arguments)]
+    pub fn cut_scenario(&self, w: &mut World, rec: &mut dyn Recorder, user: &Pubkey, mi: usize, is_long: bool, col_long: bool, adl: bool, swap_fails: bool, ctr: &mut u64) {
+        const USD: u128 = 100_000_000_000_000_000_000;
+        let m = self.mkts[mi].clone();
+        let mut nonce = |tag: u8| {
+            *ctr += 1;
+            let mut n = [0u8; 32];
+            n[..8].copy_from_slice(&ctr.to_le_bytes());
+            n[31] = tag;
+            n
+        };
+        let ct = if col_long { m.long } else { m.short };
+        let st = self.flow_position(w, rec, user, mi, &nonce(9), true, is_long, col_long, self.units(ct, 500), 1000 * USD);
+        if st != Some(1) {
+            return;
+        }
+        // the index price moves 10% in favour of the position
+        let p = self.current_price(w, &self.toks[m.index]);
+        self.set_token_price(w, m.index, if is_long { p * 11 / 10 } else { p * 9 / 10 });
+        if adl {
+            let (k1, k2) = if is_long { ("max_pnl_factor_for_long_adl", "min_pnl_factor_after_long_adl") } else { ("max_pnl_factor_for_short_adl", "min_pnl_factor_after_short_adl") };
+            self.flow_config(w, rec, mi, k2, 0);
+            self.flow_config(w, rec, mi, k1, 100_000_000_000_000); // 1e-6
+            self.flow_update_adl(w, rec, mi, is_long);
+        } else {
+            self.flow_config(w, rec, mi, "min_collateral_factor_for_liquidation", 2 * USD);
+        }
+        if swap_fails {
+            self.flow_config(w, rec, mi, if is_long { "max_pool_amount_for_long_token" } else { "max_pool_amount_for_short_token" }, 1);
+        }
+        let size = self.open_position(w, user, mi, is_long, col_long).map(|x| x.1).unwrap_or(0);
+        self.flow_cut(w, rec, user, mi, is_long, col_long, &nonce(10), if adl { Some(size) } else { None });
     }
 }
